@@ -6,7 +6,10 @@ import "unsafe"
 
 // arena (heap flavour): shared inputs live on the Go heap, so that the race
 // detector shadows them (-race build, DESIGN §4.6 "R build").
-type arena struct{ br byteRanges }
+type arena struct {
+	br  byteRanges
+	mis int // rotating misalignment for byte data (0..7)
+}
 
 const ArenaReadOnly = false
 
@@ -33,7 +36,11 @@ func (a *arena) i32s(x []int32) []int32 {
 	return out[:len(x)]
 }
 func (a *arena) bytes(x []byte) []byte {
-	out := make([]byte, len(x)+spareCap)
+	// byte data starts at a rotating offset from an 8-byte boundary: code that
+	// reads or compares word-at-a-time must not depend on alignment
+	a.mis = (a.mis + 3) & 7
+	full := make([]byte, len(x)+spareCap+8)
+	out := full[a.mis : a.mis+len(x)+spareCap : a.mis+len(x)+spareCap]
 	copy(out, x)
 	for i := len(x); i < len(out); i++ {
 		out[i] = sentinel8
@@ -44,7 +51,10 @@ func (a *arena) bytes(x []byte) []byte {
 func (a *arena) strs(x []string) []string {
 	out := make([]string, len(x))
 	for i, s := range x {
-		out[i] = string(append([]byte(nil), s...))
+		a.mis = (a.mis + 3) & 7
+		full := make([]byte, len(s)+8)
+		copy(full[a.mis:], s)
+		out[i] = string(full)[a.mis : a.mis+len(s)] // one copy; the string starts at a rotating misalignment
 	}
 	return out
 }
